@@ -6,5 +6,6 @@ CONSTANTS p1, p2, g1, g2
 MCScript == (p1 :> <<g1, g2, g1>>) @@ (p2 :> <<g1, Par>>)
 MCScriptB == (p1 :> <<g1, g1, g1>>) @@ (p2 :> <<g1>>)
 MCScriptC == (p1 :> <<g1, g2>>) @@ (p2 :> <<g2, g1>>)
+MCScriptD == (p1 :> <<g1, g2, g2>>) @@ (p2 :> <<g2, g1>>)
 MCScriptL == (p1 :> <<g1, g1>>) @@ (p2 :> <<g1>>)
 =============================================================================
